@@ -34,7 +34,7 @@ def race_scenarios(rng, tier):
                         "n_ticks": 4, "step_cost_ns": [sd + 1, 0, 1, 1, 2, 5], "stims": [{"real": P + off, "comp": "b"}]})
     for late in (2, 3, 5):
         for at in (1, 2):
-            out.append({"components": [dev("x"), dev("a", cb={"kind": "period", "p": P})], "n_ticks": 5, "start_delays": {"": late},
+            out.append({"components": [dev("x"), dev("a", cb={"kind": "period", "p": P})], "n_ticks": 5, "start_delays": {"": late}, "t0": (0 if at == 1 else 5_000_000),
                         "stims": [{"step": 1 + at, "comp": "x"}, {"real": P + P // 2, "comp": "x"}, {"real": 2 * P + P // 2, "comp": "x"}]})
     return out
 
